@@ -707,6 +707,25 @@ func (m *Model) Pull(name string, max int, now time.Time, resp []*pubsubpb.Recei
 				if d.Seek && c.reason == "acked" {
 					also = append(also, "C13")
 				}
+				if c.reason != "retention-over" && m.expiry(d, now) == 1 {
+					// whatever else is wrong with it, it is also past its retention
+					also = append(also, "C14")
+				}
+				if c.reason == "acked" {
+					// an acknowledged message coming back on a subscription whose
+					// sibling (same message) was touched by a seek: one
+					// subscription's seek changed what another receives
+					for _, o := range m.AllSubs {
+						if o == s {
+							continue
+						}
+						for _, x := range o.Dels {
+							if x.Msg == d.Msg && x.Seek && !d.Seek {
+								also = append(also, "C02")
+							}
+						}
+					}
+				}
 				viols = append(viols, Viol{Prop: c.prop, Also: also, Rule: "must-not/" + c.reason, Sig: sig, Detail: fmt.Sprintf("Pull(%s) at +%v returned message #%d (attempt %d) which must not be delivered now: %s [lease %v..%v, expires %v, delivered %d times]", name, now.Sub(epoch), d.Msg.Idx, rm.DeliveryAttempt, c.reason, d.Lo.Sub(epoch), d.Hi.Sub(epoch), d.Exp.Sub(epoch), d.N)})
 			}
 		}
